@@ -741,6 +741,43 @@ impl C06 {
                 }
                 c
             }
+            "toffoli" => {
+                // 3..4 qubits, one or two three-qubit gates (ccx / ccz) among a few one- and two-qubit
+                // gates: the other families' T budget (the doubled diagram stays within 12 T) never
+                // admits a Toffoli. Short circuits, so that which qubits a gate touches matters
+                // (idle controls, controls prepared by one earlier gate, targets read out alone).
+                let n = 3 + d.choose("tfn", 2);
+                let len = 2 + d.choose("tfl", 7);
+                let mut c = HCirc::new(n);
+                let n3 = 1 + d.choose("tf3", 2);
+                let mut pos3: Vec<usize> = (0..n3).map(|_| d.choose("tfpos", len)).collect();
+                pos3.sort();
+                // superpositions on some qubits first (otherwise most outputs are basis states)
+                for q in 0..n {
+                    if d.coin("tfh", 1, 2) {
+                        c.gates.push(HGate { k: GK::H, qs: vec![q] });
+                    }
+                }
+                for i in 0..len {
+                    if pos3.contains(&i) {
+                        let p = d.permutation("tfq3", n);
+                        c.gates.push(HGate { k: *d.pick("tfk3", &[GK::CCX, GK::CCZ, GK::CCX]), qs: vec![p[0], p[1], p[2]] });
+                        continue;
+                    }
+                    if d.coin("tf2", 1, 3) {
+                        let a = d.choose("tfa", n);
+                        let mut b = d.choose("tfb", n - 1);
+                        if b >= a {
+                            b += 1;
+                        }
+                        c.gates.push(HGate { k: *d.pick("tfk2", &[GK::CX, GK::CZ, GK::CX]), qs: vec![a, b] });
+                    } else {
+                        let q = d.choose("tfq", n);
+                        c.gates.push(HGate { k: *d.pick("tfk1", &[GK::H, GK::H, GK::H, GK::X, GK::S, GK::Z, GK::T]), qs: vec![q] });
+                    }
+                }
+                c
+            }
             "t_heavier" => {
                 // T gates that neither merge nor cancel: each one behind its own Hadamard, with
                 // entangling gates in between (3 qubits, 5..9 T)
@@ -843,6 +880,7 @@ impl Property for C06 {
             SubBatch { name: "idle", quick: 3_000, thorough: 40_000 },
             SubBatch { name: "empty", quick: 500, thorough: 4_000 },
             SubBatch { name: "t_heavy", quick: 2_500, thorough: 60_000 },
+            SubBatch { name: "toffoli", quick: 1_500, thorough: 30_000 },
             SubBatch { name: "malformed", quick: 3_000, thorough: 20_000 },
             SubBatch { name: "child", quick: 400, thorough: 4_000 },
             SubBatch { name: "child_threads", quick: 600, thorough: 12_000 },
